@@ -9,7 +9,7 @@ return what the real clock returns.
 import time as _time
 
 _real = {}
-state = {'active': False, 'offset': 0.0}
+state = {'active': False, 'offset': 0.0, 'base': 0.0}
 FLOAT = ('time', 'monotonic', 'perf_counter', 'process_time')
 NS = ('time_ns', 'monotonic_ns', 'perf_counter_ns')
 
@@ -18,7 +18,9 @@ def _make(real, ns):
     def clock():
         if state['active']:
             state['offset'] += 3600.0
-            return real() + (int(state['offset'] * 1e9) if ns else state['offset'])
+            return real() + (int((state['offset'] + state['base']) * 1e9) if ns else state['offset'] + state['base'])
+        if state['base']:
+            return real() + (int(state['base'] * 1e9) if ns else state['base'])
         return real()
     clock.__name__ = real.__name__
     clock.__doc__ = real.__doc__
@@ -32,6 +34,12 @@ def install():
         real = getattr(_time, n)
         _real[n] = real
         setattr(_time, n, _make(real, n in NS))
+
+
+def advance(seconds):
+    """The process was not scheduled for a while (or the machine slept): from now on every clock of the time module reads
+    `seconds` later than it would have.  Monotonic clocks stay monotonic; nothing waits."""
+    state['base'] += seconds
 
 
 def installed():
